@@ -100,6 +100,7 @@ type instResult struct {
 	queries     int
 	sat, unsat, unknown int
 	xqueries    int
+	xUnfinished int
 	solverTime  time.Duration
 	xsolverTime time.Duration
 	wall        time.Duration
@@ -527,9 +528,7 @@ func runInstance(l *Loaded, spec *Spec, in instance, stubs map[string]*ssa.Funct
 	if m.xsolver != nil {
 		res.xqueries = m.xsolver.Queries
 		res.xsolverTime = m.xsolver.Time
-		if m.xsolver.Unknown > 0 {
-			res.inconclusive = append(res.inconclusive, "cvc5 unknown/err: "+m.xsolver.errSeen)
-		}
+		res.xUnfinished = m.xUnfinished
 	}
 	res.reach = m.reachAll
 	res.asserts = m.asserts
@@ -638,7 +637,7 @@ func finish(spec *Spec, tier string, seed int, evidencePath string, start time.T
 	var newV []vrec
 	knownSeen := map[string]int{}
 	knownOrder := []string{}
-	totalPaths, totalBranches, totalQ, totalSat, totalUnsat, totalUnk, totalXQ := 0, 0, 0, 0, 0, 0, 0
+	totalPaths, totalBranches, totalQ, totalSat, totalUnsat, totalUnk, totalXQ, totalXU := 0, 0, 0, 0, 0, 0, 0, 0
 	var solverT, xsolverT time.Duration
 	funcs := map[string]int{}
 	reach := map[string]int{}
@@ -654,6 +653,7 @@ func finish(spec *Spec, tier string, seed int, evidencePath string, start time.T
 		totalUnsat += r.unsat
 		totalUnk += r.unknown
 		totalXQ += r.xqueries
+		totalXU += r.xUnfinished
 		solverT += r.solverTime
 		xsolverT += r.xsolverTime
 		for k, n := range r.funcs {
@@ -774,7 +774,7 @@ func finish(spec *Spec, tier string, seed int, evidencePath string, start time.T
 			"functions_encoded_socketace":   fnames,
 			"functions_encoded_total":       len(funcs),
 			"queries":                       map[string]interface{}{"solver": solverKind, "sent": totalQ, "sat": totalSat, "unsat": totalUnsat, "unknown": totalUnk, "time_s": round2(solverT.Seconds())},
-			"crosscheck":                    map[string]interface{}{"solver": xsolverKind, "verdict_queries": totalXQ, "time_s": round2(xsolverT.Seconds())},
+			"crosscheck":                    map[string]interface{}{"solver": xsolverKind, "verdict_queries": totalXQ, "unfinished": totalXU, "time_s": round2(xsolverT.Seconds())},
 			"assertions_checked":            asserts,
 			"vacuity_witnesses":             reach,
 			"value_enumeration_capped_at":   sampledSites,
@@ -842,7 +842,7 @@ func TestVPReplay(t *testing.T) {
 	ov[filepath.Join(repoRoot, relPkg, "zz_verif_replay_test.go")] = testPath
 	writeJSON(filepath.Join(dir, "overlay.json"), map[string]interface{}{"Replace": ov})
 	pj, _ := json.Marshal(in.params)
-	script := fmt.Sprintf("#!/bin/sh\ncd /repo && VP_MODEL=%s VP_PARAMS='%s' GOFLAGS=-mod=mod GOPROXY=off GOSUMDB=off GOTOOLCHAIN=local timeout 600 go test -tags verif -vet=off -count=1 -overlay %s -run TestVPReplay ./%s\n",
+	script := fmt.Sprintf("#!/bin/sh\ncd "+repoRoot+" && VP_MODEL=%s VP_PARAMS='%s' GOFLAGS=-mod=mod GOPROXY=off GOSUMDB=off GOTOOLCHAIN=local timeout 600 go test -tags verif -vet=off -count=1 -overlay %s -run TestVPReplay ./%s\n",
 		filepath.Join(dir, "model.json"), string(pj), filepath.Join(dir, "overlay.json"), relPkg)
 	os.WriteFile(filepath.Join(dir, "replay.sh"), []byte(script), 0o755)
 	cmd := exec.Command("/bin/sh", filepath.Join(dir, "replay.sh"))
